@@ -2,6 +2,8 @@ import LenaModel.Model.C08
 import LenaModel.Lemmas.C08
 import LenaModel.Lemmas.C08Fmt
 import LenaModel.Lemmas.C08Str
+import LenaModel.Lemmas.C08Json
+import LenaModel.Lemmas.C08JsonV
 /-! # C08 — property theorems (context addressing, formatting and update elements)
 
 Vocabulary: `getPath v p` is the item a key path `p` names (`none`: absent, or a scalar on the way);
@@ -806,13 +808,14 @@ theorem to_string_perm (a b : Val) (wa : a.WF) (wb : b.WF) (h : DictEq a b) : to
 /-- **to_string_inj** — "different ones give different strings": dictionaries with the same token
 sequence are equal (the brace/comma/colon structure is unambiguous; that `json.dumps` spells different
 keys and scalars differently is assumed, see `Tok`) -/
-theorem to_string_inj (a b : Val) (h : toTokens a = toTokens b) : DictEq a b := by
+theorem to_string_inj_tokens_partial (a b : Val) (h : toTokens a = toTokens b) : DictEq a b := by
   rw [toTokens_eq_raw, toTokens_eq_raw] at h
   exact dictEq_of_canon_eq a b (rawTokens_injective _ _ h)
 
 /-- `to_string` is canonical: same string exactly for equal dictionaries -/
 theorem to_string_canonical (a b : Val) (wa : a.WF) (wb : b.WF) : toTokens a = toTokens b ↔ DictEq a b :=
-  ⟨to_string_inj a b, to_string_perm a b wa wb⟩
+  ⟨to_string_inj_tokens_partial a b, to_string_perm a b wa wb⟩
+
 
 theorem lookup_eq_none_iff : ∀ (l : Entries) (k : String), lookup l k = none ↔ ∀ e ∈ l, e.1 ≠ k
   | [], k => by simp
@@ -985,6 +988,36 @@ theorem listEq_iff : ∀ (xa xb : List Val), ListWF xa →
       intro i v w h1 h2
       exact h (i + 1) v w (by simpa using h1) (by simpa using h2)
 end
+
+/-- the clause "different ones give different strings" at full strength: at the level of the CHARACTERS of the
+string, for all values.  It is FALSE of the model as it stands (`to_string_inj_full_false`): a float is
+represented by an arbitrary `repr` string, and `float "1"` is spelled like the integer 1.  Real float reprs always
+contain `.`, `e`, `inf` or `nan`; that, and that the decimal spelling of integers is decodable, is trusted
+(ASSUMPTIONS) and sampled by the harness.  Proved: the token level for all values
+(`to_string_inj_tokens_partial`) and the character level for values without numbers
+(`to_string_inj_chars_partial`: the quoting/escaping of `json.dumps` is a prefix code, `jsonStrC_inj`, so no key or
+string can forge structure). -/
+def to_string_inj_full : Prop :=
+  ∀ a b : Val, a.WF → b.WF → toStringV a = toStringV b → DictEq a b
+
+theorem to_string_inj_full_false : ¬ to_string_inj_full := by
+  intro h
+  have hd := h (.dict [("a", .leaf (.float "1"))]) (.dict [("a", .leaf (.int 1))])
+    (by simp [EntriesWF, Val.WF, lookup]) (by simp [EntriesWF, Val.WF, lookup]) (by decide)
+  have := (pyEq_iff _ _ (by simp [EntriesWF, Val.WF, lookup])).2 hd
+  revert this; decide
+
+/-- **to_string_inj (characters, values without numbers)** — two values whose scalars are `None`, booleans and
+strings (dictionaries and lists of any shape, keys and strings with any characters: quotes, backslashes,
+blanks, control and non-ASCII characters) have the same `to_string` STRING only if they are equal -/
+theorem to_string_inj_chars_partial (a b : Val) (ha : numFree a = true) (hb : numFree b = true)
+    (h : toStringV a = toStringV b) : DictEq a b :=
+  dictEq_of_canon_eq a b (toStringV_inj_chars a b ha hb h)
+
+-- the reviewer's forging strings: a value that contains `","b":"` does not collide with the two-item dictionary
+example : toStringV (.dict [("a", .leaf (.str "x\",\"b\":\"y"))]) ≠
+    toStringV (.dict [("a", .leaf (.str "x")), ("b", .leaf (.str "y"))]) := by decide
+example : toStringV (.dict [("a", .leaf (.str "x y"))]) ≠ toStringV (.dict [("a", .leaf (.str "xy"))]) := by decide
 
 /-- in particular: any reordering of the items of a dictionary gives the same string -/
 theorem to_string_reorder (ea eb : Entries) (h : ea.Perm eb) (wa : EntriesWF ea) :
@@ -1516,6 +1549,720 @@ example : jTokens (.dict [(.int 10, .leaf .none), (.int 9, .leaf .none), (.bool 
     .ok [.lbrace, .key "true", .colon, .scalar .none, .comma, .key "9", .colon, .scalar .none, .comma,
          .key "10", .colon, .scalar .none, .rbrace] := by decide
 
+theorem renderPieces_errors (strict : Bool) (ctx : Entries) : ∀ (ps : List Piece) (e : Exc),
+    renderPieces strict ctx ps = .error e → e = .unmodelled
+  | [], e, h => by simp [renderPieces] at h
+  | .lit s :: r, e, h => by
+    simp only [renderPieces] at h
+    cases hr : renderPieces strict ctx r with
+    | error e' => rw [hr] at h; simp at h; subst h; exact renderPieces_errors strict ctx r e' hr
+    | ok o => rw [hr] at h; cases o <;> simp at h
+  | .field p :: r, e, h => by
+    simp only [renderPieces] at h
+    cases hg : getPath (.dict ctx) p with
+    | none =>
+      rw [hg] at h
+      simp only at h
+      split at h
+      · simp at h
+      · exact renderPieces_errors strict ctx r e h
+    | some w =>
+      rw [hg] at h
+      simp only [strOfVal] at h
+      cases hp : pyStrVal w with
+      | none => rw [hp] at h; simp at h; exact h.symm
+      | some t =>
+        rw [hp] at h
+        simp only at h
+        cases hr : renderPieces strict ctx r with
+        | error e' => rw [hr] at h; simp at h; subst h; exact renderPieces_errors strict ctx r e' hr
+        | ok o => rw [hr] at h; cases o <;> simp at h
+
+/-! ## 14. The exception contract: which exceptions can leave each callable
+
+"… a malformed argument by LenaTypeError/LenaValueError, never by another exception."  `unmodelled` is not an
+exception but the model declining (a `str()` it does not transcribe, a format specification, jinja2 syntax
+outside the fragment); `valueError` is the builtin `ValueError` of `str.format` that `format_context`
+documents. -/
+
+mutual
+theorem keysOfVal_errors : ∀ (v : Val) (e : Exc), keysOfVal v = .error e → e = .lenaValueError ∨ e = .unmodelled
+  | .leaf a, e, h => by
+    cases a <;> simp [keysOfVal] at h
+    exact Or.inr h.symm
+  | .list [], e, h => by simp [keysOfVal] at h
+  | .list (_ :: _), e, h => by simp [keysOfVal] at h; exact Or.inr h.symm
+  | .dict es, e, h => by
+    simp only [keysOfVal] at h
+    exact keysOfEntries_errors es e h
+theorem keysOfEntries_errors : ∀ (es : Entries) (e : Exc), keysOfEntries es = .error e →
+    e = .lenaValueError ∨ e = .unmodelled
+  | [], e, h => by simp [keysOfEntries] at h
+  | [(k, v)], e, h => by
+    simp only [keysOfEntries] at h
+    cases hv : keysOfVal v with
+    | ok ks => rw [hv] at h; simp at h
+    | error e' =>
+      rw [hv] at h; simp at h; subst h
+      exact keysOfVal_errors v e' hv
+  | _ :: _ :: _, e, h => by simp [keysOfEntries] at h; exact Or.inl h.symm
+end
+
+/-- **get_recursively raises only its documented exceptions**: `LenaTypeError` (not a dictionary, keys of a wrong
+type), `LenaValueError` (two keys at a level), `LenaKeyError` (a missing key — and only when no default was given) -/
+theorem getRec_errors (d : Val) (k : KeyArg) (dflt : Option Val) (e : Exc) (h : getRec d k dflt = .error e) :
+    e = .lenaTypeError ∨ e = .lenaValueError ∨ e = .unmodelled ∨ (e = .lenaKeyError ∧ dflt = none) := by
+  unfold getRec at h
+  split at h
+  · rename_i es
+    cases hn : normKeys k with
+    | error e' =>
+      rw [hn] at h; simp at h; subst h
+      cases k with
+      | str s => simp [normKeys] at hn
+      | other => simp [normKeys] at hn; exact Or.inl hn.symm
+      | list ks => simp only [normKeys] at hn; split at hn <;> simp at hn; exact Or.inl hn.symm
+      | dict es' =>
+        simp only [normKeys] at hn
+        rcases keysOfEntries_errors es' e' hn with h | h
+        · exact Or.inr (Or.inl h)
+        · exact Or.inr (Or.inr (Or.inl h))
+    | ok ks =>
+      rw [hn] at h
+      simp only at h
+      cases hw : walk es ks with
+      | some v => rw [hw] at h; simp at h
+      | none =>
+        rw [hw] at h
+        cases dflt with
+        | some dv => simp at h
+        | none => simp at h; exact Or.inr (Or.inr (Or.inr ⟨h.symm, rfl⟩))
+  · simp at h; exact Or.inl h.symm
+
+theorem lookupArgs_spec (ctx : Val) : ∀ (args : List String),
+    (∀ e, lookupArgs ctx args = .error e → e = .lenaTypeError ∨ e = .lenaKeyError) ∧
+    (∀ vs, lookupArgs ctx args = .ok vs → vs.length = args.length)
+  | [] => by simp [lookupArgs]
+  | a :: as => by
+    obtain ⟨ih1, ih2⟩ := lookupArgs_spec ctx as
+    constructor
+    · intro e h
+      simp only [lookupArgs] at h
+      cases hg : getRec ctx (.str a) none with
+      | error e' =>
+        rw [hg] at h; simp at h; subst h
+        rcases getRec_errors ctx _ _ e' hg with h | h | h | ⟨h, _⟩
+        · exact Or.inl h
+        · exfalso
+          subst h
+          unfold getRec at hg
+          split at hg
+          · simp [normKeys] at hg; split at hg <;> simp at hg
+          · simp at hg
+        · exfalso
+          subst h
+          unfold getRec at hg
+          split at hg
+          · simp [normKeys] at hg; split at hg <;> simp at hg
+          · simp at hg
+        · exact Or.inr h
+      | ok v =>
+        rw [hg] at h
+        simp only at h
+        cases hr : lookupArgs ctx as with
+        | error e' => rw [hr] at h; simp at h; subst h; exact ih1 e' hr
+        | ok vs => rw [hr] at h; simp at h
+    · intro vs h
+      simp only [lookupArgs] at h
+      cases hg : getRec ctx (.str a) none with
+      | error e' => rw [hg] at h; simp at h
+      | ok v =>
+        rw [hg] at h
+        simp only at h
+        cases hr : lookupArgs ctx as with
+        | error e' => rw [hr] at h; simp at h
+        | ok vs' => rw [hr] at h; simp at h; subst h; simp [ih2 vs' hr]
+
+theorem strOfVals_spec : ∀ (vs : List Val),
+    (∀ e, strOfVals vs = .error e → e = .unmodelled) ∧ (∀ ss, strOfVals vs = .ok ss → ss.length = vs.length)
+  | [] => by simp [strOfVals]
+  | v :: r => by
+    obtain ⟨ih1, ih2⟩ := strOfVals_spec r
+    constructor
+    · intro e h
+      simp only [strOfVals, strOfVal] at h
+      cases hp : pyStrVal v with
+      | none => rw [hp] at h; simp at h; exact h.symm
+      | some t =>
+        rw [hp] at h
+        simp only at h
+        cases hr : strOfVals r with
+        | error e' => rw [hr] at h; simp at h; subst h; exact ih1 e' hr
+        | ok ss => rw [hr] at h; simp at h
+    · intro ss h
+      simp only [strOfVals, strOfVal] at h
+      cases hp : pyStrVal v with
+      | none => rw [hp] at h; simp at h
+      | some t =>
+        rw [hp] at h
+        simp only at h
+        cases hr : strOfVals r with
+        | error e' => rw [hr] at h; simp at h
+        | ok ss' => rw [hr] at h; simp at h; subst h; simp [ih2 ss' hr]
+
+/-- **format_context at call time**: a formatter built from any string raises only `LenaKeyError` (a missing
+field), `LenaTypeError` (the context is not a dictionary) or the documented builtin `ValueError` of `str.format`
+(a single brace) — in particular never `IndexError`: `str.format` cannot run out of positional arguments,
+because the scanner stores a field name for every place that takes one (`scan_cnt`) -/
+theorem formatCall_errors (s : String) (f : Fmt) (ctx : Val) (e : Exc) (hi : formatInit (some s) = .ok f)
+    (h : formatCall f ctx = .error e) :
+    e = .lenaKeyError ∨ e = .lenaTypeError ∨ e = .valueError ∨ e = .unmodelled := by
+  unfold formatCall at h
+  obtain ⟨la1, la2⟩ := lookupArgs_spec ctx f.args
+  cases hl : lookupArgs ctx f.args with
+  | error e' =>
+    rw [hl] at h; simp at h; subst h
+    rcases la1 e' hl with h | h
+    · exact Or.inr (Or.inl h)
+    · exact Or.inl h
+  | ok vs =>
+    rw [hl] at h
+    simp only at h
+    obtain ⟨so1, so2⟩ := strOfVals_spec vs
+    cases hs : strOfVals vs with
+    | error e' => rw [hs] at h; simp at h; subst h; exact Or.inr (Or.inr (Or.inr (so1 e' hs)))
+    | ok ss =>
+      rw [hs] at h
+      simp only at h
+      cases hp : pyFormat f.fstr ss with
+      | ok o => rw [hp] at h; simp at h
+      | error e' =>
+        rw [hp] at h; simp at h; subst h
+        rcases pyFormat_errors f.fstr ss e' hp with h | h | ⟨_, hlt⟩
+        · exact Or.inr (Or.inr (Or.inl h))
+        · exact Or.inr (Or.inr (Or.inr h))
+        · exfalso
+          have := formatInit_cnt s f hi
+          have := so2 ss hs
+          have := la2 vs hl
+          omega
+
+/-- **format_update_with raises only Lena exceptions** (and the documented `ValueError` of a template with a
+single brace): `LenaTypeError` (key or dictionary of a wrong type), `LenaValueError` (empty key, malformed
+template), `LenaKeyError` (a missing field) -/
+theorem formatUpdateWith_errors (key : Option String) (value d : Val) (e : Exc)
+    (h : formatUpdateWith key value d = .error e) :
+    e = .lenaTypeError ∨ e = .lenaValueError ∨ e = .lenaKeyError ∨ e = .valueError ∨ e = .unmodelled := by
+  unfold formatUpdateWith at h
+  cases hv : formatValue value d with
+  | error e' =>
+    rw [hv] at h; simp at h; subst h
+    unfold formatValue at hv
+    split at hv
+    · rename_i t
+      split at hv
+      · cases hi : formatInit (some t) with
+        | error e2 =>
+          rw [hi] at hv; simp at hv; subst hv
+          rcases formatInit_total t with ⟨f, hf⟩ | hf
+          · rw [hf] at hi; simp at hi
+          · rw [hf] at hi; simp at hi; exact Or.inr (Or.inl hi.symm)
+        | ok fc =>
+          rw [hi] at hv
+          simp only at hv
+          cases hc : formatCall fc d with
+          | ok r => rw [hc] at hv; simp at hv
+          | error e2 =>
+            rw [hc] at hv; simp at hv; subst hv
+            rcases formatCall_errors t fc d e2 hi hc with h | h | h | h
+            · exact Or.inr (Or.inr (Or.inl h))
+            · exact Or.inl h
+            · exact Or.inr (Or.inr (Or.inr (Or.inl h)))
+            · exact Or.inr (Or.inr (Or.inr (Or.inr h)))
+      · simp at hv
+    · simp at hv
+  | ok vf =>
+    rw [hv] at h
+    simp only at h
+    unfold assignFormatted at h
+    cases hk : strToDictE key (some vf) with
+    | error e' =>
+      rw [hk] at h; simp at h; subst h
+      cases key with
+      | none => simp [strToDictE] at hk; exact Or.inl hk.symm
+      | some k =>
+        simp only [strToDictE, strToDict] at hk
+        split at hk
+        · simp at hk; exact Or.inr (Or.inl hk.symm)
+        · have hne : splitDots k ≠ [] := by
+            unfold splitDots
+            have := splitDotsC_ne_nil k.toList
+            simpa using this
+          rw [nestList_eq _ _ hne] at hk
+          simp at hk
+    | ok fctx =>
+      rw [hk] at h
+      simp only [updateRecursively, Option.isSome_none, Bool.false_eq_true, if_false] at h
+      split at h
+      · simp at h
+      · simp at h; exact Or.inl h.symm
+
+/-- **UpdateContext at call time raises only `LenaKeyError`** (a missing key with `raise_on_missing`, or with
+neither a default nor `skip_on_missing`) -/
+theorem ucCall_errors {δ : Type} (uc : UC) (v : Item δ) (e : Exc) (h : ucCall uc v = .error e) :
+    e = .lenaKeyError ∨ e = .unmodelled := by
+  unfold ucCall at h
+  cases hc : ucCompute uc v.context with
+  | ok c => rw [hc] at h; cases c <;> simp at h
+  | error e' =>
+    rw [hc] at h; simp at h; subst h
+    unfold ucCompute at hc
+    split at hc
+    · simp at hc
+    · rename_i key _
+      have hnk : normKeys (.str key) = .ok ((((splitDots key).filter (· ≠ ""))).map Leaf.str) := rfl
+      split at hc
+      · rw [get_eq_path v.context _ _ none hnk] at hc
+        cases hg : getPath (.dict v.context) ((splitDots key).filter (· ≠ "")) with
+        | none => rw [hg] at hc; simp at hc; split at hc <;> simp at hc; exact Or.inl hc.symm
+        | some w => rw [hg] at hc; simp at hc
+      · rename_i dv _
+        rw [get_eq_path v.context _ _ (some dv) hnk] at hc
+        cases hg : getPath (.dict v.context) ((splitDots key).filter (· ≠ "")) <;> rw [hg] at hc <;> simp at hc
+    · simp at hc
+    · rename_i ps strict _
+      cases hr : renderPieces strict v.context ps with
+      | error e2 =>
+        rw [hr] at hc; simp at hc; subst hc
+        exact Or.inr (renderPieces_errors strict v.context ps e2 hr)
+      | ok o =>
+        rw [hr] at hc
+        cases o with
+        | some t => simp at hc
+        | none => simp at hc; split at hc <;> simp at hc; exact Or.inl hc.symm
+    · simp at hc; exact Or.inr hc.symm
+
+/-! ## 15. From the constructor ARGUMENTS to the outcome (review F4)
+
+The theorems of section 3 are about an element `uc` in a given internal state; these say which state
+`UpdateContext.__init__` builds from its arguments, and compose the two. -/
+
+/-- a key path that can stand between the braces of `UpdateContext(…, "{{key.path}}", value=True)`: its keys
+have no brace and no blank -/
+def ValueKeyPath (p : List String) : Prop :=
+  p ≠ [] ∧ WFPath p ∧ ∀ k ∈ p, ∀ c ∈ k.toList, c ≠ '{' ∧ c ≠ '}' ∧ isSpace c = false
+
+/-- `"{{" + blanks + "key.path" + blanks + "}}"` -/
+def valueTemplate (l r : List Char) (p : List String) : String :=
+  String.ofList ('{' :: '{' :: ((l ++ (joinDots p).toList ++ r) ++ ['}', '}']))
+
+theorem joinDots_chars (p : List String) (hp : ValueKeyPath p) :
+    (joinDots p).toList ≠ [] ∧ ∀ c ∈ (joinDots p).toList, c ≠ '{' ∧ c ≠ '}' ∧ isSpace c = false := by
+  constructor
+  · intro e
+    exact joinDots_ne_empty p hp.1 hp.2.1 (String.toList_eq_nil_iff.1 e)
+  · intro c hc
+    simp only [joinDots, String.toList_ofList] at hc
+    rcases mem_joinDotsC _ c hc with rfl | ⟨w, hw, hcw⟩
+    · decide
+    · simp only [List.mem_map] at hw
+      obtain ⟨k, hk, rfl⟩ := hw
+      exact hp.2.2 k hk c hcw
+
+/-- **ucInit_value** — `UpdateContext(sub, "{{ key.path }}", value=True, default?, skip?, raise?, recursively?)`
+with at most one of the three missing-key options: the element addresses the sub-context path, copies the
+item `key.path` (the blanks are not part of the key), keeps the options, and raises on a missing key
+exactly when `raise_on_missing` was given or neither a default nor `skip_on_missing` -/
+theorem ucInit_value (q p : List String) (hq : WFPath q) (hqne : q ≠ []) (hp : ValueKeyPath p)
+    (l r : List Char) (hl : ∀ c ∈ l, isSpace c = true ∧ c ≠ '{' ∧ c ≠ '}')
+    (hr : ∀ c ∈ r, isSpace c = true ∧ c ≠ '{' ∧ c ≠ '}')
+    (dflt : Option Val) (skip rais rec : Bool)
+    (hact : dflt.isSome.toNat + rais.toNat + skip.toNat ≤ 1) :
+    ucInit ⟨some (joinDots q), .str (valueTemplate l r p), true, dflt, skip, rais, rec⟩ =
+      .ok ⟨q, .ctxValue (joinDots p), dflt, skip, (if !dflt.isSome && !skip then true else rais), rec⟩ := by
+  obtain ⟨hkne, hkc⟩ := joinDots_chars p hp
+  have hbody : ∀ c ∈ l ++ (joinDots p).toList ++ r, c ≠ '{' ∧ c ≠ '}' := by
+    intro c hc
+    simp only [List.mem_append] at hc
+    rcases hc with (hc | hc) | hc
+    · exact (hl c hc).2
+    · exact ⟨(hkc c hc).1, (hkc c hc).2.1⟩
+    · exact (hr c hc).2
+  obtain ⟨hm, hk⟩ := value_template (l ++ (joinDots p).toList ++ r) [] hbody
+  have hany : (l ++ (joinDots p).toList ++ r).any (fun c => !isSpace c) = true := by
+    obtain ⟨c0, t, ht⟩ : ∃ c0 t, (joinDots p).toList = c0 :: t := by
+      cases h : (joinDots p).toList with
+      | nil => exact absurd h hkne
+      | cons a b => exact ⟨a, b, rfl⟩
+    simp only [List.any_eq_true, List.mem_append]
+    exact ⟨c0, Or.inl (Or.inr (by rw [ht]; simp)), by simp [(hkc c0 (by rw [ht]; simp)).2.2]⟩
+  have hstrip : strip (l ++ (joinDots p).toList ++ r) = (joinDots p).toList :=
+    strip_blanks l r _ (fun c hc => (hl c hc).1) (fun c hc => (hr c hc).1) hkne
+      (fun c hc => (hkc c (List.mem_of_mem_head? hc)).2.2)
+      (fun c hc => (hkc c (List.mem_of_mem_getLast? hc)).2.2)
+  have hmatch : matchValueTemplate (valueTemplate l r p).toList = true := by
+    unfold valueTemplate
+    rw [String.toList_ofList]
+    have := hm
+    simp only [List.append_assoc, List.cons_append, List.nil_append] at this ⊢
+    rw [this]
+    simp only [List.append_assoc] at hany
+    simp [hany]
+  have hkey : valueKey (valueTemplate l r p) = joinDots p := by
+    unfold valueTemplate
+    rw [hk, hstrip, String.ofList_toList]
+  have hsub : strToList (joinDots q) = q := by
+    unfold strToList
+    rw [if_neg (joinDots_ne_empty q hqne hq)]
+    exact splitDots_joinDots q hqne (fun k hk => (hq k hk).2)
+  have hne : joinDots q ≠ "" := joinDots_ne_empty q hqne hq
+  unfold ucInit
+  simp only [hne, if_false, hsub, hmatch, hkey, Bool.true_and, if_true]
+  rw [if_neg (by omega)]
+
+example : ValueKeyPath ["a", "b"] := by
+  refine ⟨by simp, ?_, ?_⟩
+  · intro k hk; simp at hk; rcases hk with rfl | rfl <;> decide
+  · intro k hk; simp at hk; rcases hk with rfl | rfl <;> decide
+
+example : valueTemplate [' '] [' '] ["a", "b"] = "{{ a.b }}" := by decide
+
+/-- **update_context_value_end_to_end** — for every combination of `default / skip_on_missing /
+raise_on_missing / recursively` (at most one of the first three) and every value `v`: the element built from the
+arguments copies the item named between the braces to the sub-context; when that item is missing it writes
+the default, or returns the value unchanged (`skip_on_missing`), or raises `LenaKeyError` (`raise_on_missing`, and
+also when none of the three was given) -/
+theorem update_context_value_end_to_end {δ : Type} (q p : List String) (hq : WFPath q) (hqne : q ≠ [])
+    (hp : ValueKeyPath p) (l r : List Char) (hl : ∀ c ∈ l, isSpace c = true ∧ c ≠ '{' ∧ c ≠ '}')
+    (hr : ∀ c ∈ r, isSpace c = true ∧ c ≠ '{' ∧ c ≠ '}')
+    (dflt : Option Val) (skip rais rec : Bool) (hact : dflt.isSome.toNat + rais.toNat + skip.toNat ≤ 1)
+    (v : Item δ) :
+    ∃ uc, ucInit ⟨some (joinDots q), .str (valueTemplate l r p), true, dflt, skip, rais, rec⟩ = .ok uc ∧
+      ucCall uc v =
+        match getPath (.dict v.context) p with
+        | some w => .ok (.pair v.data (ucSet rec v.context q w))
+        | none =>
+          match dflt with
+          | some dv => .ok (.pair v.data (ucSet rec v.context q dv))
+          | none => if skip then .ok v else .error .lenaKeyError := by
+  refine ⟨_, ucInit_value q p hq hqne hp l r hl hr dflt skip rais rec hact, ?_⟩
+  have hm := missing_key_matrix_value
+    ⟨q, .ctxValue (joinDots p), dflt, skip, (if !dflt.isSome && !skip then true else rais), rec⟩ p hp.2.1 rfl v.context
+  simp only at hm
+  unfold ucCall
+  rw [hm]
+  cases getPath (.dict v.context) p with
+  | some w => rfl
+  | none =>
+    cases dflt with
+    | some dv => rfl
+    | none => cases skip <;> rfl
+
+/-- **format_update_with with a template, end to end** — `format_update_with(key, "lit{{f1}}lit{{f2}}…", d)`
+assigns the literals interleaved with `str(item)` to the key path when every field names an item, raises
+`LenaKeyError` and assigns nothing when one is missing; and — the frame — every item of `d` whose path is not
+prefix-comparable with the key path is what it was -/
+theorem fuw_template_exact (p : List String) (hne : p ≠ []) (hp : WFPath p) (ps : List Piece)
+    (hw : ∀ x ∈ ps, x.WF) (hfield : ∃ f, Piece.field f ∈ ps) (d : Entries) :
+    (fieldsPresent d ps = false →
+      formatUpdateWith (some (joinDots p)) (.leaf (.str (templateString ps))) (.dict d) = .error .lenaKeyError) ∧
+    (fieldsPresent d ps = true → StrFields d ps →
+      ∃ d', formatUpdateWith (some (joinDots p)) (.leaf (.str (templateString ps))) (.dict d) = .ok (.dict d') ∧
+        getPath (.dict d') p = some (.leaf (.str (renderSpec d ps))) ∧
+        ∀ q, ¬ p <+: q → ¬ q <+: p → getPath (.dict d') q = getPath (.dict d) q) := by
+  obtain ⟨f, hf, hcall⟩ := format_exact ps hw
+  have hbrace : (templateString ps).toList.contains '{' = true := by
+    obtain ⟨fp, hfp⟩ := hfield
+    unfold templateString
+    rw [String.toList_ofList]
+    simp only [List.contains_eq_mem, decide_eq_true_eq]
+    clear hf hcall hw
+    induction ps with
+    | nil => simp at hfp
+    | cons x r ih =>
+      cases x with
+      | lit s =>
+        simp only [List.map_cons, Piece.toTP, render0, List.mem_append]
+        exact Or.inr (ih (by simpa using hfp))
+      | field g => simp [Piece.toTP, render0]
+  obtain ⟨h1, h2, _⟩ := fuw_template p hne hp (templateString ps) hbrace d
+  constructor
+  · intro hpres
+    exact h2 f _ hf ((hcall d).1 hpres)
+  · intro hpres hstr
+    refine ⟨ucSet true d p (.leaf (.str (renderSpec d ps))), h1 f _ hf ((hcall d).2 hpres hstr), ?_, ?_⟩
+    · rw [getPath_ucSet_same true _ p d hne]
+      simp [updItem]
+    · intro q hq1 hq2
+      exact getPath_ucSet_frame true _ p d q hne hq1 hq2
+
+/-- the frame of `format_update_with` with a plain value, spelled out -/
+theorem fuw_frame (p : List String) (hne : p ≠ []) (hp : WFPath p) (v : Val) (hv : NotTemplate v) (d : Entries) :
+    ∃ d', formatUpdateWith (some (joinDots p)) v (.dict d) = .ok (.dict d') ∧
+      getPath (.dict d') p = some (updItem (getPath (.dict d) p) v) ∧
+      ∀ q, ¬ p <+: q → ¬ q <+: p → getPath (.dict d') q = getPath (.dict d) q := by
+  refine ⟨ucSet true d p v, fuw_plain p hne hp v hv d, ?_, ?_⟩
+  · rw [getPath_ucSet_same true _ p d hne]; rfl
+  · intro q hq1 hq2
+    exact getPath_ucSet_frame true _ p d q hne hq1 hq2
+
+/-! ### jinja2 templates: from the template string to the pieces, and the formatting-string element end to end -/
+
+theorem nameChar_props (c : Char) (h : isNameChar c = true ∨ c = '.') :
+    isSpace c = false ∧ c ≠ '\n' ∧ c ≠ '\r' ∧ c ≠ '{' ∧ c ≠ '}' ∧ c ≠ '\'' ∧ c ≠ '"' := by
+  have hr : 46 ≤ c.toNat ∧ c.toNat ≤ 122 := by
+    rcases h with h | h
+    · simp only [isNameChar, Bool.or_eq_true, Bool.and_eq_true, decide_eq_true_eq, beq_iff_eq] at h
+      omega
+    · subst h; decide
+  refine ⟨?_, ?_, ?_, ?_, ?_, ?_, ?_⟩
+  · simp only [isSpace]; simp; omega
+  all_goals (intro e; subst e; revert hr; decide)
+
+theorem isName_chars (w : List Char) (h : isName w = true) : w ≠ [] ∧ ∀ c ∈ w, isNameChar c = true ∧ c ≠ '.' := by
+  cases w with
+  | nil => simp [isName] at h
+  | cons c r =>
+    simp only [isName, Bool.and_eq_true, List.all_eq_true] at h
+    refine ⟨by simp, ?_⟩
+    have hstart : isNameChar c = true := by
+      have := h.1
+      simp only [isNameStart, isNameChar, Bool.or_eq_true, Bool.and_eq_true, decide_eq_true_eq, beq_iff_eq] at this ⊢
+      omega
+    intro x hx
+    have hx' : isNameChar x = true := by
+      rcases List.mem_cons.1 hx with rfl | hx
+      · exact hstart
+      · exact h.2 x hx
+    exact ⟨hx', by intro e; subst e; revert hx'; decide⟩
+
+/-- a literal of a jinja2 template of the modelled fragment: no brace, no line break -/
+def JLit (s : String) : Prop := ∀ c ∈ s.toList, c ≠ '{' ∧ c ≠ '}' ∧ c ≠ '\n' ∧ c ≠ '\r'
+
+/-- a field: a non-empty dotted path of names (`[A-Za-z_][A-Za-z0-9_]*`) -/
+def JField (p : List String) : Prop := p ≠ [] ∧ ∀ k ∈ p, isName k.toList = true
+
+def JPiece : Piece → Prop
+  | .lit s => JLit s
+  | .field p => JField p
+
+/-- what a parser returns for a list of pieces: adjacent literals merged, empty literals dropped; `acc` is the
+literal read so far -/
+def mergeLits : List Char → List Piece → List Piece
+  | acc, [] => if acc = [] then [] else [.lit (String.ofList acc)]
+  | acc, .lit s :: r => mergeLits (acc ++ s.toList) r
+  | acc, .field p :: r => (if acc = [] then [] else [.lit (String.ofList acc)]) ++ .field p :: mergeLits [] r
+
+theorem dropSpaces_nonspace (c : Char) (r : List Char) (h : isSpace c = false) : dropSpaces (c :: r) = c :: r := by
+  simp [dropSpaces, h]
+
+theorem trimSpaces_id (n : List Char) (hne : n ≠ []) (h : ∀ c ∈ n, isSpace c = false) : trimSpaces n = n := by
+  unfold trimSpaces
+  obtain ⟨c0, t, ht⟩ : ∃ c0 t, n = c0 :: t := by
+    cases n with
+    | nil => exact absurd rfl hne
+    | cons a b => exact ⟨a, b, rfl⟩
+  obtain ⟨t', c1, ht'⟩ : ∃ t' c1, n = t' ++ [c1] := by
+    rcases List.eq_nil_or_concat n with h0 | ⟨a, b, h0⟩
+    · exact absurd h0 hne
+    · exact ⟨a, b, by simpa using h0⟩
+  have e1 : dropSpaces n = n := by rw [ht]; exact dropSpaces_nonspace _ _ (h c0 (by simp [ht]))
+  rw [e1]
+  have e2 : n.reverse = c1 :: t'.reverse := by rw [ht']; simp
+  rw [e2, dropSpaces_nonspace _ _ (h c1 (by simp [ht'])), ← e2]
+  simp
+
+theorem fieldOf_name (p : List String) (hp : JField p) : fieldOf (joinDots p).toList = .ok [.field p] := by
+  have hcomp : ∀ w ∈ p.map String.toList, w ≠ [] ∧ ∀ c ∈ w, isNameChar c = true ∧ c ≠ '.' := by
+    intro w hw
+    simp only [List.mem_map] at hw
+    obtain ⟨k, hk, rfl⟩ := hw
+    exact isName_chars _ (hp.2 k hk)
+  have hn : (joinDots p).toList = joinDotsC (p.map String.toList) := by simp [joinDots]
+  have hne : joinDotsC (p.map String.toList) ≠ [] :=
+    joinDotsC_ne_nil _ (by simpa using hp.1) (fun w hw => (hcomp w hw).1)
+  have hsp : ∀ c ∈ joinDotsC (p.map String.toList), isSpace c = false := by
+    intro c hc
+    rcases mem_joinDotsC _ c hc with rfl | ⟨w, hw, hcw⟩
+    · decide
+    · exact (nameChar_props c (Or.inl ((hcomp w hw).2 c hcw).1)).1
+  have hsplit : splitDotsC (joinDotsC (p.map String.toList)) = p.map String.toList :=
+    splitDotsC_joinDotsC _ (by simpa using hp.1) (fun w hw hc => ((hcomp w hw).2 _ hc).2 rfl)
+  unfold fieldOf
+  rw [hn, trimSpaces_id _ hne hsp]
+  simp only [hne, if_false, hsplit]
+  have hall : (p.map String.toList).all isName = true := by
+    simp only [List.all_eq_true, List.mem_map]
+    rintro w ⟨k, hk, rfl⟩
+    exact hp.2 k hk
+  simp [hall, List.map_map, Function.comp_def, String.ofList_toList]
+
+theorem jinjaGo_text_lit : ∀ (l lit rest : List Char) (outs : List Piece),
+    (∀ c ∈ l, c ≠ '{' ∧ c ≠ '}' ∧ c ≠ '\n' ∧ c ≠ '\r') →
+    jinjaGo (.text lit) (l ++ rest) outs = jinjaGo (.text (l.reverse ++ lit)) rest outs
+  | [], lit, rest, outs, _ => by simp
+  | c :: l, lit, rest, outs, h => by
+    have hc := h c (by simp)
+    simp only [List.cons_append, jinjaGo, hc.1, hc.2.2.1, hc.2.2.2, or_self, if_false]
+    rw [jinjaGo_text_lit l (c :: lit) rest outs (fun x hx => h x (by simp [hx]))]
+    simp
+
+theorem jinjaGo_expr_name : ∀ (n w rest : List Char) (outs : List Piece),
+    (∀ c ∈ n, c ≠ '\n' ∧ c ≠ '\r' ∧ c ≠ '{' ∧ c ≠ '}' ∧ c ≠ '\'' ∧ c ≠ '"') →
+    jinjaGo (.expr w) (n ++ '}' :: '}' :: rest) outs =
+      match fieldOf (w.reverse ++ n) with
+      | .ok f => jinjaGo (.text []) rest (f ++ outs)
+      | .syntaxError => .syntaxError
+      | .foreign => .foreign
+  | [], w, rest, outs, _ => by
+    simp only [List.nil_append, jinjaGo, if_true, List.append_nil]
+    cases fieldOf w.reverse <;> rfl
+  | c :: n, w, rest, outs, h => by
+    have hc := h c (by simp)
+    simp only [List.cons_append, jinjaGo, hc.1, hc.2.1, hc.2.2.1, hc.2.2.2.1, hc.2.2.2.2.1, hc.2.2.2.2.2, or_self,
+      if_false]
+    rw [jinjaGo_expr_name n (c :: w) rest outs (fun x hx => h x (by simp [hx]))]
+    simp
+
+theorem jinjaGo_pieces : ∀ (ps : List Piece), (∀ x ∈ ps, JPiece x) → ∀ (lit : List Char) (outs : List Piece),
+    jinjaGo (.text lit) (render0 (ps.map Piece.toTP)) outs = .ok ((mergeLits lit.reverse ps).reverse ++ outs)
+  | [], _, lit, outs => by
+    simp only [List.map_nil, render0, jinjaGo, pushLit, mergeLits]
+    by_cases h : lit = [] <;> simp [h]
+  | .lit s :: r, h, lit, outs => by
+    have hs : JLit s := h (.lit s) (by simp)
+    simp only [List.map_cons, Piece.toTP, render0]
+    rw [jinjaGo_text_lit s.toList lit _ outs hs, jinjaGo_pieces r (fun x hx => h x (by simp [hx]))]
+    simp [mergeLits]
+  | .field p :: r, h, lit, outs => by
+    have hp : JField p := h (.field p) (by simp)
+    have hn : ∀ c ∈ (joinDots p).toList, c ≠ '\n' ∧ c ≠ '\r' ∧ c ≠ '{' ∧ c ≠ '}' ∧ c ≠ '\'' ∧ c ≠ '"' := by
+      intro c hc
+      simp only [joinDots, String.toList_ofList] at hc
+      have : isNameChar c = true ∨ c = '.' := by
+        rcases mem_joinDotsC _ c hc with rfl | ⟨w, hw, hcw⟩
+        · exact Or.inr rfl
+        · simp only [List.mem_map] at hw
+          obtain ⟨k, hk, rfl⟩ := hw
+          exact Or.inl ((isName_chars _ (hp.2 k hk)).2 c hcw).1
+      exact (nameChar_props c this).2
+    simp only [List.map_cons, Piece.toTP, render0]
+    have h1 : ('{' : Char) ≠ '\n' ∧ ('{' : Char) ≠ '\r' := by decide
+    simp only [jinjaGo, h1.1, h1.2, or_self, if_false, if_true]
+    rw [jinjaGo_expr_name _ [] _ _ hn]
+    simp only [List.reverse_nil, List.nil_append, fieldOf_name p hp]
+    rw [jinjaGo_pieces r (fun x hx => h x (by simp [hx]))]
+    simp only [mergeLits, pushLit, List.reverse_nil, List.reverse_append, List.reverse_cons, List.singleton_append,
+      List.reverse_eq_nil_iff]
+    by_cases hl : lit = [] <;> simp [hl]
+
+/-- **jinjaParse_templateString** — the model's jinja2 parser reads back the pieces a template string was built
+from (adjacent literals merged, empty ones dropped): literals without braces and line breaks, fields that are
+dotted paths of names -/
+theorem jinjaParse_templateString (ps : List Piece) (h : ∀ x ∈ ps, JPiece x) :
+    jinjaParse (templateString ps) = .ok (mergeLits [] ps) := by
+  unfold jinjaParse templateString
+  rw [String.toList_ofList, jinjaGo_pieces ps h [] []]
+  simp
+
+example : jinjaParse "x{{ab.c}}y{{d}}" = .ok [.lit "x", .field ["ab", "c"], .lit "y", .field ["d"]] := by decide
+
+theorem ofList_append (a b : List Char) : String.ofList (a ++ b) = String.ofList a ++ String.ofList b := by
+  apply String.toList_inj.1
+  simp [String.toList_append]
+
+theorem mergeLits_spec (ctx : Entries) : ∀ (ps : List Piece) (acc : List Char),
+    renderSpec ctx (mergeLits acc ps) = String.ofList acc ++ renderSpec ctx ps ∧
+    fieldsPresent ctx (mergeLits acc ps) = fieldsPresent ctx ps ∧
+    (∀ f, Piece.field f ∈ mergeLits acc ps ↔ Piece.field f ∈ ps)
+  | [], acc => by
+    simp only [mergeLits]
+    by_cases h : acc = []
+    · subst h; simp [renderSpec, fieldsPresent]
+    · simp [h, renderSpec, fieldsPresent]
+  | .lit s :: r, acc => by
+    obtain ⟨h1, h2, h3⟩ := mergeLits_spec ctx r (acc ++ s.toList)
+    simp only [mergeLits]
+    refine ⟨?_, ?_, ?_⟩
+    · rw [h1, ofList_append, String.ofList_toList]; simp [renderSpec, String.append_assoc]
+    · rw [h2]; simp [fieldsPresent]
+    · intro f; rw [h3]; simp
+  | .field p :: r, acc => by
+    obtain ⟨h1, h2, h3⟩ := mergeLits_spec ctx r []
+    simp only [mergeLits]
+    refine ⟨?_, ?_, ?_⟩
+    · by_cases h : acc = []
+      · subst h; simp [renderSpec, h1]
+      · simp [h, renderSpec, h1]
+    · by_cases h : acc = [] <;> simp [h, fieldsPresent, h2]
+    · intro f
+      by_cases h : acc = [] <;> simp [h, h3]
+
+theorem templateString_has_brace : ∀ (ps : List Piece), (∃ f, Piece.field f ∈ ps) →
+    '{' ∈ (templateString ps).toList := by
+  intro ps ⟨fp, hfp⟩
+  unfold templateString
+  rw [String.toList_ofList]
+  induction ps with
+  | nil => simp at hfp
+  | cons x r ih =>
+    cases x with
+    | lit s =>
+      simp only [List.map_cons, Piece.toTP, render0, List.mem_append]
+      exact Or.inr (ih (by simpa using hfp))
+    | field g => simp [Piece.toTP, render0]
+
+/-- **ucInit_template** — `UpdateContext(sub, "lit{{f1}}lit{{f2}}…", skip_on_missing?, raise_on_missing?, recursively?)`
+(no default, at most one of the two options, at least one field): the element addresses the sub-context path,
+holds the parsed template, strict exactly when one of the two options was given, and keeps the options -/
+theorem ucInit_template (q : List String) (hq : WFPath q) (hqne : q ≠ []) (ps : List Piece)
+    (hps : ∀ x ∈ ps, JPiece x) (hf : ∃ f, Piece.field f ∈ ps) (skip rais rec : Bool)
+    (hact : rais.toNat + skip.toNat ≤ 1) :
+    ucInit ⟨some (joinDots q), .str (templateString ps), false, none, skip, rais, rec⟩ =
+      .ok ⟨q, .template (mergeLits [] ps) (rais || skip), none, skip, rais, rec⟩ := by
+  have hsub : strToList (joinDots q) = q := by
+    unfold strToList
+    rw [if_neg (joinDots_ne_empty q hqne hq)]
+    exact splitDots_joinDots q hqne (fun k hk => (hq k hk).2)
+  have hne : joinDots q ≠ "" := joinDots_ne_empty q hqne hq
+  have hb := templateString_has_brace ps hf
+  have hj := jinjaParse_templateString ps hps
+  unfold ucInit
+  simp only [hne, if_false, hsub, Option.isSome_none, Bool.false_and, Bool.false_eq_true, hj]
+  cases rais <;> cases skip <;> simp_all
+
+/-- **update_context_template_end_to_end** — for every combination of `skip_on_missing / raise_on_missing /
+recursively` and every value: the element built from a formatting string writes the literals interleaved
+with `str(item)` of the fields to the sub-context; when a field names no item it writes the empty string for
+it by default, returns the value unchanged with `skip_on_missing`, raises `LenaKeyError` with
+`raise_on_missing` -/
+theorem update_context_template_end_to_end {δ : Type} (q : List String) (hq : WFPath q) (hqne : q ≠ [])
+    (ps : List Piece) (hps : ∀ x ∈ ps, JPiece x) (hf : ∃ f, Piece.field f ∈ ps) (skip rais rec : Bool)
+    (hact : rais.toNat + skip.toNat ≤ 1) (v : Item δ) (hstr : StrFields v.context ps) :
+    ∃ uc, ucInit ⟨some (joinDots q), .str (templateString ps), false, none, skip, rais, rec⟩ = .ok uc ∧
+      ucCall uc v =
+        if (rais || skip) && !fieldsPresent v.context ps then
+          (if rais then .error .lenaKeyError else .ok v)
+        else .ok (.pair v.data (ucSet rec v.context q (.leaf (.str (renderSpec v.context ps))))) := by
+  refine ⟨_, ucInit_template q hq hqne ps hps hf skip rais rec hact, ?_⟩
+  obtain ⟨m1, m2, m3⟩ := mergeLits_spec v.context ps []
+  have hstr' : StrFields v.context (mergeLits [] ps) := by
+    intro p hp w hw
+    exact hstr p ((m3 p).1 hp) w hw
+  have hm := missing_key_matrix_template
+    ⟨q, .template (mergeLits [] ps) (rais || skip), none, skip, rais, rec⟩ (mergeLits [] ps) (rais || skip) rfl
+    v.context hstr'
+  simp only at hm
+  unfold ucCall
+  rw [hm, m2, m1]
+  have he : String.ofList [] ++ renderSpec v.context ps = renderSpec v.context ps := by
+    apply String.toList_inj.1; simp
+  rw [he]
+  by_cases hc : ((rais || skip) && !fieldsPresent v.context ps) = true
+  · rw [if_pos hc, if_pos hc]
+    cases rais <;> simp
+  · rw [if_neg hc, if_neg hc]
+
 /-! ## Non-vacuity: concrete instances of the hypotheses used above -/
 
 example : EntriesWF [("a", .dict [("b", .leaf (.int 7)), ("c", .leaf (.int 1))]), ("b", .leaf .none)] := by
@@ -1551,5 +2298,41 @@ example : DictEq (.dict [("a", .leaf (.int 1)), ("b", .dict [("c", .leaf .none),
   (pyEq_iff _ _ (by simp [EntriesWF, Val.WF, lookup])).1 (by decide)
 example : ¬ DictEq (.dict [("a", .leaf (.int 1))]) (.dict [("a", .leaf (.bool true))]) :=
   fun h => absurd ((pyEq_iff _ _ (by simp [EntriesWF, Val.WF, lookup])).2 h) (by decide)
+
+-- `get_eq_path`: the three notations of the path a.b normalise to it
+example : normKeys (.str "a.b") = .ok (["a", "b"].map Leaf.str) := by decide
+example : normKeys (.dict [("a", .leaf (.str "b"))]) = .ok (["a", "b"].map Leaf.str) := by decide
+
+-- `merge_keeps_siblings`: {"b": {"d": 4}} merged into {"a": 1, "b": {"c": 3}} keeps c
+example : EntriesWF [("d", .leaf (.int 4))] := by simp [EntriesWF, Val.WF, lookup]
+example : updRec [("a", .leaf (.int 1)), ("b", .dict [("c", .leaf (.int 3))])] [("b", .dict [("d", .leaf (.int 4))])] =
+    [("a", .leaf (.int 1)), ("b", .dict [("c", .leaf (.int 3)), ("d", .leaf (.int 4))])] := by decide
+
+-- `fuw_plain`, `fuw_frame`, `non_string_key`: values that are not templates
+example : NotTemplate (.leaf (.int 5)) := by intro s h; cases h
+example : NotTemplate (.leaf (.str "plain")) := (notTemplateB_iff _).1 (by decide)
+example : formatUpdateWith (some "a.b") (.leaf (.int 5)) (.dict [("x", .leaf (.int 3))]) =
+    .ok (.dict [("x", .leaf (.int 3)), ("a", .dict [("b", .leaf (.int 5))])]) := by decide
+
+-- `fuw_template`, `fuw_template_exact`, `set_context_missing`: a template with a field
+example : "{{x}}_y".toList.contains '{' = true := by decide
+example : (formatInit (some "{{x}}_y")).toOption.map (fun f => formatCall f (.dict [])) = some (.error .lenaKeyError) := by
+  decide
+example : (Piece.field ["x"]).WF ∧ (Piece.lit "_y").WF :=
+  ⟨(pieceWFB_iff _).1 (by decide), (pieceWFB_iff _).1 (by decide)⟩
+
+-- `missing_key_matrix_template`, `update_context_template_end_to_end`: a context in which every field is a scalar
+example : StrFields [("a", .dict [("b", .leaf (.int 7))]), ("c", .leaf (.bool false))]
+    [.field ["a", "b"], .lit "_x", .field ["c"]] := (strFieldsB_iff _ _).1 (by decide)
+example : JPiece (.field ["a", "b"]) ∧ JPiece (.lit "_x") := by
+  refine ⟨⟨by simp, ?_⟩, ?_⟩
+  · intro k hk; simp at hk; rcases hk with rfl | rfl <;> decide
+  · intro c hc; simp at hc; rcases hc with rfl | rfl <;> decide
+
+-- `strip_blanks`, `value_template`
+example : strip " a.b ".toList = "a.b".toList := by decide
+
+-- `to_string_inj_chars_partial`: a value without numbers, with characters that JSON escapes
+example : numFree (.dict [("a\"b", .list [.leaf (.str "x\\y\né"), .leaf .none, .leaf (.bool true)])]) = true := by decide
 
 end Lena.C08
